@@ -35,7 +35,7 @@ theorem MatFunW.congr {S : Set 𝕜} {f : 𝕜 → 𝕜} {n : Nat} {A A' F F' : 
   unfold MatFunW at *
   rwa [← MatF.toMatrix_congr hA, ← MatF.toMatrix_congr hF]
 
-theorem toMatrix_diagM (n : Nat) (d : Nat → 𝕜) :
+theorem toMatrix_diagM_unary (n : Nat) (d : Nat → 𝕜) :
     MatF.toMatrix n n (diagM d) = Matrix.diagonal (fun i : Fin n => d i.val) := by
   ext i j
   simp only [MatF.toMatrix_apply, diagM, Matrix.diagonal_apply, Fin.ext_iff]
@@ -43,7 +43,7 @@ theorem toMatrix_diagM (n : Nat) (d : Nat → 𝕜) :
 theorem matFunW_diagM {S : Set 𝕜} (f : 𝕜 → 𝕜) (n : Nat) (d : Nat → 𝕜) (hd : ∀ i, i < n → d i ∈ S) :
     MatFunW S f n (diagM d) (diagM (fun i => f (d i))) := by
   unfold MatFunW
-  rw [toMatrix_diagM, toMatrix_diagM]
+  rw [toMatrix_diagM_unary, toMatrix_diagM_unary]
   exact IsMatFunOn.diagonal f _ (fun i => hd i.val i.isLt)
 
 theorem matFunW_zero {S : Set 𝕜} (f : 𝕜 → 𝕜) (A F : MatF 𝕜) : MatFunW S f 0 A F :=
